@@ -125,8 +125,8 @@ func c13Specs(tier string) []*Spec {
 			Alphabet: a.Ops, Oracles: []Oracle{oracleFormat(), oracleEncodedDB(keys), oracleFresh(oracleReads(keys))}})
 	}
 	if tier == "quick" {
-		add("default/3keys/d5", defaultCfg, k3, 5, 2, 10)
-		add("nofast/3keys/d4", Cfg{Fast: false}, k3, 4, 2, 2)
+		add("default/3keys/d6", defaultCfg, k3, 6, 2, 10)
+		add("nofast/3keys/d5", Cfg{Fast: false}, k3, 5, 2, 2)
 		add("longkey/d4", defaultCfg, [][]byte{[]byte("a"), long, {0xff, 0x00}}, 4, 1, 2)
 		add("iv7/d4", Cfg{Fast: true, IVSet: true, IV: 7}, k3, 4, 1, 2)
 		addB("boundary-lengths/d3", 3, 3)
